@@ -160,12 +160,16 @@ def run_case(case, ctx):
     kern = _build(name, case["pbatch"])
     util.randomize(kern, g, 0.5)
     x1, x2 = _data(case, g)
-    with torch.no_grad():
-        with S.lazily_evaluate_kernels(False):
-            D = kern(x1, x2).to_dense()
-        if case["kind"] == "index":
-            return _index(case, ctx, kern, x1, x2, D)
-        return _relations(case, ctx, kern, x1, x2, D, g)
+    b1, b2 = x1.clone(), x2.clone()
+    try:
+        with torch.no_grad():
+            with S.lazily_evaluate_kernels(False):
+                D = kern(x1, x2).to_dense()
+            if case["kind"] == "index":
+                return _index(case, ctx, kern, x1, x2, D)
+            return _relations(case, ctx, kern, x1, x2, D, g)
+    finally:
+        ctx.expect("inputs_not_mutated", bool(torch.equal(x1, b1)) and bool(torch.equal(x2, b2)), f"{case['kernel']}: evaluating / indexing the kernel changed its input tensors in place")
 
 
 def _dense(o):
